@@ -1612,6 +1612,27 @@ fn dump_line(cs: &Case) -> String {
 // The outline of a flat closed ring with parameters t_0..t_{n-1} has the centroid
 // sum |t_{i+1}-t_i| (t_i+t_{i+1})/2 / sum |t_{i+1}-t_i| along the line (for a triangle: the midpoint of its extremes).
 // ------------------------------------------------------------------------------------------
+fn dup_ring_starts(g: &IG) -> IG {
+    let dup = |rings: &Vec<Vec<IP>>| -> Vec<Vec<IP>> {
+        rings
+            .iter()
+            .map(|r| {
+                let mut v = r.clone();
+                if !v.is_empty() {
+                    v.insert(1, v[0]);
+                }
+                v
+            })
+            .collect()
+    };
+    match g {
+        IG::Polygon(r) => IG::Polygon(dup(r)),
+        IG::MultiPolygon(ms) => IG::MultiPolygon(ms.iter().map(|r| dup(r)).collect()),
+        IG::Collection(v) => IG::Collection(v.iter().map(dup_ring_starts).collect()),
+        x => x.clone(),
+    }
+}
+
 pub fn check_flat_mixed(sh: &mut Shard, ts: &[(i64, i32)], d: (i64, i64), kind: u8, verbose: bool) {
     use geo::{Centroid, Coord, Geometry, GeometryCollection, LineString, Point, Polygon, Triangle};
     let tv: Vec<f64> = ts.iter().map(|&(m, e)| m as f64 * crate::q::pow2(e)).collect();
@@ -1683,7 +1704,12 @@ pub fn run(ctx: &Ctx, sh: &mut Shard) {
         }
         // a panic in here is a harness error (geo calls are wrapped individually): stop loudly
         match guard(|| {
-            let cs = gen_case(&mut r, thorough);
+            let mut cs = gen_case(&mut r, thorough);
+            // one case in six: every polygon ring written with its start coordinate twice ([A, A, B, ..., A]): no point and
+            // no area added, but whatever looks at "the first two coordinates" of a ring now sees a zero-length segment
+            if r.chance(1, 6) {
+                cs.g = dup_ring_starts(&cs.g);
+            }
             if let Some(f) = dump.as_mut() {
                 use std::io::Write;
                 let _ = writeln!(f, "{}", dump_line(&cs));
